@@ -99,7 +99,7 @@ PROPS = {
         "level": "proof",
         "lean_modules": ["SqlizeModel.Props.C03"],
         "theorems": ["Sqlize.C03.unchanged_prints_nothing", "Sqlize.C03.same_options_unchanged", "Sqlize.migrate_quiet"],
-        "suites": [{"name": "pair"}],
+        "suites": [{"name": "pair"}, {"name": "struct", "kind": "struct"}],
         "corr_points": ["load-old", "load-new", "state-old", "state-new", "Diff", "state-diff", "StringUp", "StringDown", "StringUp-2nd"],
         "rule": PAIR_RULE,
         "trusted_base": COMMON_TB + PAIR_TB,
